@@ -87,7 +87,7 @@ fn gen_cfg(rng: &mut Rng, expose: bool) -> Cfg {
     for p in 0..k {
         let side = |rng: &mut Rng, c: char| -> String {
             let n = 1 + rng.below(2);
-            (0..n).map(|_| format!("%{}{}[{}]", c, if rng.chance(1, 4) { "?" } else { "" }, rng.below(4))).collect::<Vec<_>>().join(",")
+            (0..n).map(|_| format!("%{}{}[{}]", c, if rng.chance(1, 4) { "?" } else { "" }, if rng.chance(1, 12) { 10 + rng.below(3) } else { rng.below(4) })).collect::<Vec<_>>().join(",")
         };
         // a literal tag on both sides keeps every expansion different from the file format's
         // markers '*' and ''; 1 case in 10 omits the right tag (known-finding class K3)
@@ -105,6 +105,7 @@ fn gen_cfg(rng: &mut Rng, expose: bool) -> Cfg {
     for (l, r) in &bigrams { feature_def.push_str(&format!("BIGRAM {}/{}\n", l, r)); }
     // rewrite rules: the left and the right side treat rows differently
     let rule = |rng: &mut Rng| -> String {
+        if rng.chance(1, 10) { let k = 1 + rng.below(4) as usize; return format!("{} {}\n", vec!["*"; k].join(","), (1..=k).map(|i| format!("${}", i)).collect::<Vec<_>>().join(",")); }
         let pat = [*rng.pick(&["名詞", "*", "(名詞|動詞)", "助詞"][..]), *rng.pick(&["*", "固有", "一般"][..]), "*", "*"];
         let out = [*rng.pick(&["$1", "体言", "$1"][..]), *rng.pick(&["$2", "*", "$2"][..]), *rng.pick(&["$3", "*"][..]), *rng.pick(&["$4", "*"][..])];
         let n = 2 + rng.below(3) as usize;
@@ -136,6 +137,8 @@ fn gen_cfg(rng: &mut Rng, expose: bool) -> Cfg {
     let mut user = String::new();
     // a 0,0,0 user word with exactly the features of a seed word (must behave like that word)
     { let (_, f) = rng.pick(&rows); user.push_str(&format!("uz,0,0,0,{}\n", f)); }
+    // ... and one with the SURFACE and the features of a seed word (must get that word's cost as well)
+    { let (sf, f) = rng.pick(&rows); if sf.chars().count() < 100 { user.push_str(&format!("{},0,0,0,{}\n", quote(sf), f)); } }
     for i in 0..1 + rng.below(6) {
         let s = format!("u{}{}", ["x", "y", "猫猫"][i as usize % 3], i);
         match rng.below(6) {
@@ -395,6 +398,8 @@ pub fn run(prop: &str, seed: u64, n: usize, outdir: &str, _corpus: Option<&str>)
                                     let col = |m: &Vec<Vec<i32>>, l: i64| -> Vec<i32> { m.iter().map(|r| r[l as usize]).collect() };
                                     // (the word cost may differ: the unigram template %t sees the category of the surface's first character)
                                     like &= conn[o.2 as usize] == conn[so.2 as usize] && col(&conn, o.1) == col(&conn, so.1);
+                                    // same surface as well: same unigram features, hence the same cost
+                                    if sd.0 == u.0 { like &= o.3 == so.3; }
                                 }
                             }
                         }
